@@ -24,6 +24,7 @@ func init() {
 			ruleMatcherLoop(r)
 			ruleSanitiserSites(r)
 			ruleSelectLogsWindow(r)
+			ruleOffloadProvenance(r)
 		},
 	})
 }
